@@ -619,3 +619,40 @@ def make_replay(ctx, o):
     if getattr(o, 'replay', None):
         return {'script': 'native/replay_C14.py', 'input': o.replay}
     return None
+
+
+def native_search(ctx, o):
+    """bounded replay corpus for obligations the solver left open / refuted without a reproducing model"""
+    idsets = [[], ['a'], ['A', 'b'], ['My', 'Project'], ['x1', '_y', 'Z9'], ['a', 'a']]
+    bad = [['a-b'], ['1a'], [''], ['a b'], ['ok', 'a.b'], ['a\n'], ['b', 'x\n'], ['é']]
+    inputs = []
+    everything = o.id.split(':', 1)[-1].startswith('engine:')
+    if everything or 'NamespaceIds.__post_init__' in o.id or 'namespaceids_t' in o.id:
+        for ids in idsets + bad:
+            inputs.append({'function': 'NamespaceIds', 'items': ids})
+        for ids in idsets:
+            inputs.append({'function': 'namespaceids_t', 'kind': 'list', 'ids': ids})
+            if len(ids) == 1:
+                inputs.append({'function': 'namespaceids_t', 'kind': 'single', 'ids': ids})
+            for sep in ('.', '::'):
+                inputs.append({'function': 'namespaceids_t', 'kind': 'roundtrip', 'sep': sep, 'ids': ids})
+    if everything or 'scope_resolution_order' in o.id or 'find_fqn' in o.id:
+        pairs = [(['Seconds'], ['My', 'Project']), (['Project', 'Seconds'], ['My']), (['X'], []), (['X'], None),
+                 (['A', 'B'], ['A', 'B', 'C']), (['a'], ['a'])]
+        for (n, sc) in pairs:
+            inputs.append({'function': 'scope_resolution_order', 'name': n, 'scope': sc, 'repeat': 2,
+                           'interleave': [[p[0], p[1] or []] for p in pairs]})
+    if everything or 'find_' in o.id or 'scope_resolution_order' in o.id:
+        decls = [['interface', ['My', 'Project', 'Seconds']], ['interface', ['My', 'Seconds']],
+                 ['extern', ['Seconds']], ['enum', ['Other', 'Seconds']], ['component', ['My', 'Project', 'C']],
+                 ['system', ['My', 'S']], ['subint', ['My', 'Project', 'Sub', 'Seconds']], ['foreign', ['F']],
+                 ['interface', ['Project', 'Seconds']], ['enum', ['My', 'Project', 'Project', 'Seconds']]]
+        for (n, sc) in [(['Seconds'], ['My', 'Project']), (['Project', 'Seconds'], ['My']), (['Seconds'], None),
+                        (['Seconds'], []), (['C'], ['My', 'Project', 'Deep']), (['S'], ['My']), (['F'], ['Q']),
+                        (['Sub', 'Seconds'], ['My', 'Project'])]:
+            inputs.append({'function': 'find_fqn', 'decls': decls, 'name': n, 'scope': sc,
+                           'interleave': [[['Project', 'Seconds'], ['My']], [['Seconds'], ['My', 'Project']]]})
+        for tail in (['Seconds'], ['Project', 'Seconds'], ['My', 'Project', 'Seconds'], ['C'], ['nope'],
+                     ['A', 'My', 'Project', 'Seconds']):
+            inputs.append({'function': 'find_any', 'decls': decls, 'tail': tail})
+    return {'script': 'native/replay_C14.py', 'input': {'search': inputs}} if inputs else None
